@@ -646,7 +646,9 @@ impl Store {
                 let tags = filter.tags()?;
                 for mut tag in tags.iter() {
                     if let Some(tag0) = tag.next() {
-                        if let Some(tagvalue) = tag.next() {
+                        // a constraint matches if the event has any one of its values,
+                        // so every value's range has to be scanned
+                        for tagvalue in tag {
                             let iter = self.indexes.atc_iter(
                                 author,
                                 tag0[0],
@@ -701,7 +703,9 @@ impl Store {
                 let tags = filter.tags()?;
                 for mut tag in tags.iter() {
                     if let Some(tag0) = tag.next() {
-                        if let Some(tagvalue) = tag.next() {
+                        // a constraint matches if the event has any one of its values,
+                        // so every value's range has to be scanned
+                        for tagvalue in tag {
                             let iter = self.indexes.ktc_iter(
                                 kind,
                                 tag0[0],
@@ -755,7 +759,9 @@ impl Store {
             let tags = filter.tags()?;
             for mut tag in tags.iter() {
                 if let Some(tag0) = tag.next() {
-                    if let Some(tagvalue) = tag.next() {
+                    // a constraint matches if the event has any one of its values,
+                    // so every value's range has to be scanned
+                    for tagvalue in tag {
                         let iter =
                             self.indexes
                                 .tc_iter(tag0[0], tagvalue, since, filter.until(), &txn)?;
